@@ -29,14 +29,16 @@ class Side:
         self.rng = rng
 
 
-def gen_case(rng):
-    rank = rng.choice([1, 2, 2, 3])
+def gen_case(rng, force=None):
+    """force="dynpad": one side has run-time strides with a padded pitch, the other a static tiled layout (a class that matters and that
+    the free choices below produce only about once in a hundred cases)"""
+    rank = rng.choice([1, 2, 2, 3]) if force is None else rng.choice([2, 2, 3])
     el = rng.choice(list(W))
     dims = [rng.choice([1, 2, 3, 4, 6, 8]) for _ in range(rank)]
     while _prod(dims) > 64:
         dims[rng.randrange(rank)] = rng.choice([1, 2])
     dyn = [rng.random() < 0.25 for _ in range(rank)]
-    use_tsl = rng.random() < 0.5
+    use_tsl = rng.random() < 0.5 or force == "dynpad"
     if use_tsl:
         dyn = [False] * rank     # TSL cases are static (dynamic TSL steps have no independent meaning)
     # tile split per dim (equal tile bounds on both sides)
@@ -71,12 +73,12 @@ def gen_case(rng):
 
     def plain_layout(padded_dyn_ok=False):
         r = rng.random()
-        if r < 0.4:
+        if r < 0.4 and not (padded_dyn_ok and force == "dynpad"):
             return "", (lambda sizes, strides, off_: {"dims": [[{"b": b, "s": s}] for b, s in zip(sizes, rowmajor(sizes))], "off": 0}), False
         # strided: permuted / padded strides, static or dynamic
         perm = list(range(rank))
         rng.shuffle(perm)
-        pad = rng.choice([0, 0, 1, 2])
+        pad = rng.choice([0, 0, 1, 2]) if not (padded_dyn_ok and force == "dynpad") else rng.choice([1, 2, 3])
 
         def conc_strides(sizes):
             st = [0] * rank
@@ -87,7 +89,7 @@ def gen_case(rng):
                 cur += pad
             return st
         off_choices = [0, 0, 2, 7]
-        dyn_meta = rng.random() < 0.35
+        dyn_meta = rng.random() < 0.35 or (padded_dyn_ok and force == "dynpad")
         if dyn_meta or any(dyn):
             # known finding (known/C05/dynamic_strides.json): dynamic strides are assumed to be those of an unpadded row-major
             # buffer; the generator therefore gives a `?` stride only that value
@@ -109,7 +111,7 @@ def gen_case(rng):
         return txt, (lambda sizes, strides, off_: {"dims": [[{"b": b, "s": s}] for b, s in zip(sizes, st)], "off": off}), False
 
     sides = []
-    if use_tsl and rng.random() < 0.3:
+    if use_tsl and (rng.random() < 0.3 or force == "dynpad"):
         # one side with run-time (possibly padded) strides, the other a static tiled layout
         sides = [plain_layout(padded_dyn_ok=True), tsl_layout()]
         if rng.random() < 0.5:
@@ -168,7 +170,7 @@ def run(pid: str, tier: str, seed: int, selftest=False, replay=None) -> int:
     rep = Report(pid, tier, seed)
     known = KnownFindings()
     rng = random.Random(seed)
-    n = 250 if tier == "quick" else 5000
+    n = 800 if tier == "quick" else 5000
     cases = []
     gens = []
     base = os.path.join(os.path.dirname(os.path.dirname(os.path.abspath(__file__))), "known", pid)
@@ -176,7 +178,7 @@ def run(pid: str, tier: str, seed: int, selftest=False, replay=None) -> int:
         wj = json.load(open(p))
         gens.append((f"witness:{pid}/{os.path.basename(p)}", (wj["text"], [tuple(a) for a in wj["alts"]], wj["w"], wj["info"])))
     for k in range(n):
-        gens.append((f"gen:{seed}:{k}", gen_case(rng)))
+        gens.append((f"gen:{seed}:{k}", gen_case(rng, force="dynpad" if k % 8 == 3 else None)))
     prev_text = None
     for gi, (name, (text, alts, w, info)) in enumerate(gens):
         # every third copy is lowered in one pass run together with the previous one (as function @g); @f is judged
